@@ -197,7 +197,7 @@ let run_case_inner (a : string array) : string =
     let e = get a.(1) in let t = zi a 3 in
     let m = with_model e (fun z -> show_res (fun (al, _) -> show_al al) (break_time z Z0 t)) in
     out m m (Lazy.force e.wf && in64 t)
-  | "fmt" ->
+  | "fmk" ->
     let e = get a.(1) in let cs = fields_of a 3 in
     let m = with_model e (fun z -> show_res (fun (c, _) -> show_cl c) (make_time z Z0 cs)) in
     out m m (Lazy.force e.wf && valid_fields cs && in64 cs.fy)
